@@ -246,8 +246,24 @@ func c04Gen(t *rapid.T) c04Case {
 			}
 			tm.Key = ct.O[rapid.IntRange(0, len(ct.O)-1).Draw(t, "cdel")].Key
 		case "top_set":
-			tm.Key = rapid.SampledFrom([]string{"unsigned", "age_ts", "outlier", "destinations", "event_id", "foo", "origin", "membership", "prev_state", "redacts", "redacts", "sticky", "msc4354_sticky", "depth", "origin_server_ts"}).Draw(t, "tkey")
+			tm.Key = rapid.SampledFrom([]string{"unsigned", "age_ts", "outlier", "destinations", "event_id", "foo", "origin", "membership", "prev_state", "redacts", "redacts", "sticky", "msc4354_sticky", "depth", "origin_server_ts",
+				// look-alikes of event fields: other letter case, or letters that fold to ASCII (U+017F, U+212A)
+				"\u017fender", "Sender", "state_Key", "state_\u212aey", "Type", "room_ID", "Content", "Redacts", "Depth", "Hashes"}).Draw(t, "tkey")
 			switch tm.Key {
+			case "\u017fender", "Sender":
+				tm.Value = vfBytes(`"@evil:evil.example"`)
+			case "state_Key", "state_\u212aey":
+				tm.Value = vfBytes(`"forged"`)
+			case "Type":
+				tm.Value = vfBytes(`"m.room.create"`)
+			case "room_ID":
+				tm.Value = vfBytes(`"!elsewhere:evil.example"`)
+			case "Content", "Hashes":
+				tm.Value = vfBytes(`{"zz_evil":1}`)
+			case "Redacts":
+				tm.Value = vfBytes(`"$x:y"`)
+			case "Depth":
+				tm.Value = vfBytes(`7`)
 			case "sticky", "msc4354_sticky":
 				tm.Value = vfBytes(`{"duration_ms":600000}`)
 			case "redacts":
